@@ -23,6 +23,8 @@ pub(crate) static mut G_FCNT: Uq<u32> = Uq { magic: 0x6C727600B8A9E6BE, v: 0 }; 
 pub(crate) static mut G_BUILT: Uq<u32> = Uq { magic: 0x6C72760095C36D52, v: 0 }; // number of frames built by Mac::send
 pub(crate) static mut G_BUILT_FCNT: Uq<u32> = Uq { magic: 0x6C727600A67E892A, v: 0 }; // counter the last frame was built with
 pub(crate) static mut G_RX_CALLS: Uq<u32> = Uq { magic: 0x6C727600B81D504B, v: 0 };
+/// (frequency, max payload, set) of the last receive configuration handed to the radio
+pub(crate) static mut G_LAST_RXCFG: Uq<(u32, u8, bool)> = Uq { magic: 0x6C727600B81D504C, v: (0, 0, false) };
 static mut G_EXPIRED_REPORTED: Uq<bool> = Uq { magic: 0x6C7276000ED10A21, v: false };
 
 pub(crate) fn any_rf() -> RfConfig {
@@ -60,6 +62,10 @@ pub(crate) fn stub_handle_rx<const N: usize, const D: usize>(
 ) -> mac::Response {
     unsafe {
         G_RX_CALLS.v += 1;
+        // C05 (front-end half): the size limit a frame is judged against is that of the window
+        // the radio was last configured for, i.e. the one the frame was received in
+        assert!(!G_LAST_RXCFG.v.2 || (G_LAST_RXCFG.v.0 == _rf.frequency && G_LAST_RXCFG.v.1 == _rf.max_payload_len),
+            "C05/C10: a received frame is judged against the parameters (maximum size) of the window it was received in");
         if kani::any() {
             mac::Response::NoUpdate
         } else if G_FCNT.v == u32::MAX {
@@ -121,6 +127,7 @@ impl radio::PhyRxTx for MRadio {
         Ok(ms)
     }
     async fn setup_rx(&mut self, _config: radio::RxConfig) -> Result<(), ()> {
+        unsafe { G_LAST_RXCFG.v = (_config.rf.frequency, _config.rf.max_payload_len, true); }
         self.step()
     }
     async fn rx_continuous(&mut self, _rx_buf: &mut [u8]) -> Result<(usize, radio::RxQuality), ()> {
